@@ -658,6 +658,19 @@ package engine
 //@   let d0 := rdData(current_state.reader)
 //@   modifies inferred
 //@   ensures step: cellOk(result) && frozen(result, c0) && rdData(result.reader) == d0
+//@   atcall MATCHANY class: i.Class == ast.ClassAny && arg1 == i.Not [C01]
+//@   atcall MATCHLETTER class: i.Class == ast.ClassLetter && arg1 == i.Not [C01]
+//@   atcall MATCHFILESTART class: i.Class == ast.ClassFileStart && arg1 == i.Not [C01]
+//@   atcall MATCHFILEEND class: i.Class == ast.ClassFileEnd && arg1 == i.Not [C01]
+//@   atcall MATCHLINESTART class: i.Class == ast.ClassLineStart && arg1 == i.Not [C01]
+//@   atcall MATCHLINEEND class: i.Class == ast.ClassLineEnd && arg1 == i.Not [C01]
+//@   atcall MATCHWORDSTART class: i.Class == ast.ClassWordStart && arg1 == i.Not [C01]
+//@   atcall MATCHWORDEND class: i.Class == ast.ClassWordEnd && arg1 == i.Not [C01]
+//@   atcall MATCHWHOLEFILE class: i.Class == ast.ClassWholeFile && arg1 == i.Not [C01]
+//@   atcall MATCHWHOLELINE class: i.Class == ast.ClassWholeLine && arg1 == i.Not [C01]
+//@   atcall MATCHWHOLEWORD class: i.Class == ast.ClassWholeWord && arg1 == i.Not [C01]
+//@   atcall MATCHOPTIONS class: i.Class == ast.ClassWhitespace && arg2 == i.Not && len(arg1) == 4 && arg1[0] == " " && arg1[1] == "\t" && arg1[2] == "\n" && arg1[3] == "\r" [C01]
+//@   atcall MATCHRANGE class: ((i.Class == ast.ClassDigit && arg1 == "0" && arg2 == "9") || (i.Class == ast.ClassUpper && arg1 == "A" && arg2 == "Z") || (i.Class == ast.ClassLower && arg1 == "a" && arg2 == "z")) && arg3 == i.Not [C01]
 
 //@ func matchLiteral [C03 C09 C10]
 //@   requires cellOk(current_state)
@@ -665,6 +678,7 @@ package engine
 //@   let d0 := rdData(current_state.reader)
 //@   modifies inferred
 //@   ensures step: cellOk(result) && frozen(result, c0) && rdData(result.reader) == d0
+//@   atcall MATCH operands: arg1 == i.ToFind && arg2 == i.Not && arg3 == i.Caseless [C01]
 
 //@ func matchRange [C03 C09 C10]
 //@   requires cellOk(current_state)
@@ -672,6 +686,7 @@ package engine
 //@   let d0 := rdData(current_state.reader)
 //@   modifies inferred
 //@   ensures step: cellOk(result) && frozen(result, c0) && rdData(result.reader) == d0
+//@   atcall MATCHRANGE operands: arg1 == i.From && arg2 == i.To && arg3 == i.Not [C01]
 
 //@ func matchCallSubroutine [C03 C09 C10]
 //@   requires cellOk(current_state)
@@ -728,6 +743,7 @@ package engine
 //@   let d0 := rdData(current_state.reader)
 //@   modifies inferred
 //@   ensures step: cellOk(result) && frozen(result, c0) && rdData(result.reader) == d0
+//@   atcall MATCHVAR operands: arg1 == i.Name [C01 C02]
 
 //@ func matchEndVarDec [C03 C09 C10 C02]
 //@   requires cellOk(current_state)
